@@ -634,7 +634,8 @@ CHECKS["C01"].update({
              "IS parse(text), all entry points and flags), parse_bytes_accepts_iff, decode_error_in_range, parse_bytes_total. Parser: parse_sound_document, parse_complete_document, parseDocument_accepts_iff, matched_document_unique (all 8 flag "
              "combinations; parseValue_* / parseType_* for the other two entry points). TEXT level: parse_text_accepts_iff / parse_text_result, "
              "parse_value_text_result, parse_type_text_result; lazy window: lazy_ok_iff (acceptance and the tree never depend on the window), "
-             "lazy_eq_eager_of_lexable, parse_text_lazy_error_in_range (every error the lazy parser reports is within the text except L6 on an OpenEscape "
+             "parse_text_ignored_invariant (+ value / type: two texts tiled by lexemes with the same kinds and values - any ignored runs - are both "
+             "accepted or both rejected and the trees are equal up to positions), lazy_eq_eager_of_lexable, parse_text_lazy_error_in_range (every error the lazy parser reports is within the text except L6 on an OpenEscape "
              "text), lazy_prefix_never_ok, lazy_differs (`} \"\\`: eager reports len+1, lazy the `}` at 0). ERROR CLAUSE: parse_error_in_range, parse_text_error_in_range_partial, "
              "parse_text_render_total, and the EXACT class of the one excluded case (L6), stated on the text with the lexical specification only: "
              "error_position_iff_open_escape (a lexer error is at len+1 EXACTLY WHEN the text ends inside an open quoted string with a truncated escape: "
@@ -655,7 +656,12 @@ CHECKS["C01"].update({
     "note": ("Trusted: Lean kernel; table extraction; generators; the Python canonicaliser of Node.to_dict(). Only exercised (not modelled): the "
              "U+FFFD-replaced text carried by the error for invalid UTF-8, the exception classes and messages, CPython's recursion limit (named probe, finding P1). Error positions of rejected texts are proved in "
              "range but not compared one by one (for texts with a lexical error the evidence COUNTS how often the reported position is the lazy / the "
-             "eager model's: coverage.lazy_window; never a failure). Residuals: L6 (len+1, pinned by test_lexer.py; rendering repaired; exact class proved), LA1-LA4 (readings "
+             "eager model's: coverage.lazy_window; never a failure). NOT PROVED, kept visible: ParseFuelSufficientStatement (the parser MODEL never reports its own fuel exhaustion on a "
+             "rejected input; proved for the lexer, and for accepted inputs: parse_fuel_sufficient_partial; the verdict and every position statement "
+             "are independent of it; exercised: position and class of every parser rejection are compared with the real parser, "
+             "corr:model-fuel-exhausted reports the artefact, coverage.parser_model_rejections_without_fuel_artefact counts). 'Never any other "
+             "exception' holds in the model by its types (Except SynErr): for the code it is the correspondence outcome internal:<Class>. "
+             "Residuals: L6 (len+1, pinned by test_lexer.py; rendering repaired; exact class proved), LA1-LA4 (readings "
              "of the June-2018 grammar pinned by the suite; graphql-js agrees), P1."),
     "technique": "Lean 4 proof (lexer soundness+completeness, grammar acceptance iff at text level, exact error-position class, UTF-8 round trip, tables) + extracted tables + text/token/AST correspondence",
 })
@@ -693,3 +699,11 @@ CHECKS["C02"].update({
              "pinned by 15 tests; modelled as is). Repaired earlier: B1, B2, L4, P4, U1."),
     "technique": "Lean 4 proof (block strings, escapes, spans for all documents, no_location erasure, character-level re-parse of every node, re-parse through parse() in minimal context) + decode/span correspondence + re-parse oracles",
 })
+
+# audit round (F2, F8): C03 for trees parsed WITH positions
+_add("C03", "print_erase (the printer ignores source positions: print(d) = print(erase d), every node kind, Lemmas/PrintErase.lean) and, with C02's "
+            "noloc_erasure, the round trip for trees parsed WITH positions under ANY flags: print_parse_located (the printed tree re-parses to a tree equal "
+            "to the original UP TO SOURCE POSITIONS, modulo the member descriptions of R4), print_parse_located_iff (exact exclusion), "
+            "print_stable_located.",
+     "print_total only says the output ends with a newline: 'printing never raises' / 'is deterministic' hold for the MODEL by construction (a total "
+     "Lean function without error branch) and are tied to the code only by the correspondence and the direct oracle (stated in its doc comment).")
